@@ -203,6 +203,10 @@ func init() {
 	}
 	// vConcrete: is the engine running? (natively false) — lets a harness skip
 	// native-only set-up.
+	harnessAPI["vMapOrder"] = func(fr *frame, fn *ssa.Function, args []Value) Value {
+		fr.p.mapOrder = args[0].(StrV).String()
+		return nil
+	}
 	harnessAPI["vThorough"] = func(fr *frame, fn *ssa.Function, args []Value) Value {
 		return BoolC(fr.p.P.tier == "thorough")
 	}
